@@ -1088,6 +1088,8 @@ impl<E: Effect> Executor<E> {
     /// Execute up to max_units instruction units for a single process.
     /// Returns (did_work, optional_action) where did_work indicates if any instructions were executed.
     pub fn step(&mut self, max_units: usize, current_time_ms: u64) -> (bool, Option<Action<E>>) {
+        #[cfg(feature = "verif")]
+        let max_units = crate::verif::quantum_override().unwrap_or(max_units);
         // Reclaim slots that settled at count 0 since the last step. Doing it here (a quiescent
         // point — any Action returned by the previous step has been handled by the Environment,
         // and no Rust-local Value handles are live) is what makes deferred reclamation safe.
@@ -2892,6 +2894,65 @@ impl<E: Effect> Executor<E> {
 
         // Remap value indices
         remap_heap_indices(&value, &index_map)
+    }
+}
+
+#[cfg(feature = "verif")]
+impl<E: Effect> Executor<E> {
+    /// Verification hook: a copy of the heap accounting state.
+    pub fn verif_heap_view(&self) -> crate::verif::HeapView {
+        crate::verif::HeapView {
+            refcounts: self.refcounts.clone(),
+            freed: self.freed.clone(),
+            free: self.free.clone(),
+            pending_free: self.pending_free.clone(),
+            bytes: self.heap.iter().map(|d| d.to_vec()).collect(),
+            constant_slots: self
+                .constant_binaries
+                .iter()
+                .flatten()
+                .filter_map(|b| match b {
+                    Binary::Heap(i) => Some(*i),
+                    _ => None,
+                })
+                .collect(),
+        }
+    }
+
+    /// Verification hook: which processes are queued / parked.
+    pub fn verif_parked(&self) -> crate::verif::Parked {
+        let sorted = |it: Vec<usize>| {
+            let mut v = it;
+            v.sort_unstable();
+            v
+        };
+        crate::verif::Parked {
+            queue: self.queue.iter().copied().collect(),
+            spawning: sorted(self.spawning.iter().copied().collect()),
+            selecting: sorted(self.selecting.iter().copied().collect()),
+            effecting: sorted(self.effecting.iter().copied().collect()),
+            all: sorted(self.processes.keys().copied().collect()),
+        }
+    }
+
+    /// Verification hook: would `message` pass the *type* test of receive source `source`?
+    pub fn verif_message_compatible(&self, message: &Value, source: &Value) -> bool {
+        self.check_message_compatible(message, source)
+    }
+
+    /// Verification hook: the runtime type test behind `IsType`.
+    pub fn verif_type_compatible(&self, value: &Value, type_id: usize) -> bool {
+        self.check_type_compatible(value, type_id)
+    }
+
+    /// Verification hook: the structural equality behind `Equal`.
+    pub fn verif_values_equal(&self, a: &Value, b: &Value) -> bool {
+        self.values_equal(a, b)
+    }
+
+    /// Verification hook: tuple arities known to this executor.
+    pub fn verif_tuple_arities(&self) -> &[usize] {
+        &self.tuples
     }
 }
 
